@@ -150,8 +150,8 @@ def run(chk, repo: Repo):
                     f"parameter-to-parameter matrix of a function-backed model: after get_matrix() such a model's transpose acts on the wrong space "
                     f"(shape errors / geometry applied twice for reshaping geometries)", ctor)
         tname = [path_of(s_.targets[0]) for s_ in ast.walk(T.getter) if isinstance(s_, ast.Assign) and s_.value is ctor]
-        transposed = (bool(tname) and any(_norm(n) == f"{tname[0]}._matrix=self._matrix.T" for n in ast.walk(T.getter) if isinstance(n, ast.Assign))) \
-            or args[0] == "self._matrix.T"
+        from .common import assigned_values
+        transposed = (bool(tname) and "self._matrix.T" in assigned_values(repo, lm, T.getter, f"{tname[0]}._matrix")) or args[0] == "self._matrix.T"     # aliases of self._matrix expanded
         ok = len(args) == 4 and iparams[2:4] == ["range_geometry", "domain_geometry"] and args[2:] == ["self.domain_geometry", "self.range_geometry"] and transposed
         chk.add("C07-R1", f"{lm.qual}.@T{tag}/swap", ok, site(repo, T.getter), "geometries swapped, stored matrix transposed",
                 "transposed model does not swap the geometries / transpose the stored matrix consistently", T.getter)
